@@ -144,9 +144,13 @@ _LEXICAL_MSGS = (
 def c06_rowan_ignores_lexical_errors(op, impl, model, args):
     """rowan parser reports no error for a token the evaluator's lexer/literal decoder rejects
     (bad escape, unterminated string, malformed text block, non-finite number)"""
+    # ONLY the rowan parser's leniency: BOTH evaluator parsers must have rejected the text (said
+    # explicitly, not only through `ir == peg`): a text with a lexical error that one of the two
+    # evaluator parsers accepts (e.g. an unterminated comment skipped as trivia) is an ir-vs-peg
+    # disagreement and never this finding
     msg = op.get("ir_msg", "")
-    return _only_rowan_deviates(op) and not _acc(op) and op.get("rowan") is True \
-        and any(m in msg for m in _LEXICAL_MSGS)
+    return _only_rowan_deviates(op) and op.get("ir") == "reject" and op.get("peg") == "reject" \
+        and op.get("rowan") is True and any(m in msg for m in _LEXICAL_MSGS)
 
 
 def c06_rowan_accepts_experimental_syntax(op, impl, model, args):
